@@ -31,30 +31,39 @@ var tokens = []string{"a", "b", ".", "%a", "%d", "%A", "[ab]", "[^a]", "[a-c]", 
 	// a literal byte >= 0x80 (patterns and subjects are byte strings, not text)
 	"\xe9"}
 
-func nSeq(maxTok int) uint64 {
+// The item alphabet: whole pattern items (a single-character class with its
+// quantifier), captures and a back reference.  Sequences of items reach the
+// interplay of quantifier give-back, captures and back references (such as
+// "(a*)%1b", six tokens) that sequences of 3-4 tokens cannot spell.
+var items = []string{"a", "b", "a*", "a-", "a?", "b+", ".-", "[ab]*", "(", ")", "%1"}
+
+func nSeqOf(al []string, maxTok int) uint64 {
 	var n, p uint64 = 0, 1
 	for l := 0; l <= maxTok; l++ {
 		n += p
-		p *= uint64(len(tokens))
+		p *= uint64(len(al))
 	}
 	return n
 }
 
-func seqPattern(i uint64) string {
+func seqPatternOf(al []string, i uint64) string {
 	p := uint64(1)
 	l := 0
 	for i >= p {
 		i -= p
-		p *= uint64(len(tokens))
+		p *= uint64(len(al))
 		l++
 	}
 	parts := make([]string, l)
 	for k := l - 1; k >= 0; k-- {
-		parts[k] = tokens[i%uint64(len(tokens))]
-		i /= uint64(len(tokens))
+		parts[k] = al[i%uint64(len(al))]
+		i /= uint64(len(al))
 	}
 	return strings.Join(parts, "")
 }
+
+func nSeq(maxTok int) uint64     { return nSeqOf(tokens, maxTok) }
+func seqPattern(i uint64) string { return seqPatternOf(tokens, i) }
 
 // alphabetFor picks the subject alphabet from the constructs present in the
 // pattern text: always a and b, plus the characters that the other constructs
@@ -1197,13 +1206,16 @@ type bounds struct {
 	tok2, subj2    int // fewer tokens, longer subjects
 	tok3, subj3    int // more tokens, shorter subjects (0 = family absent)
 	curSubj, plain int
+	// sequences of whole items (see items): bounds for the Lua level and for
+	// the Go API of the pattern package, subject length
+	itemLua, itemGo, itemSubj int
 }
 
 func boundsFor(tier string) bounds {
 	if tier == "thorough" {
-		return bounds{tok: 3, subj: 5, tok2: 2, subj2: 6, tok3: 4, subj3: 3, curSubj: 6, plain: 5}
+		return bounds{tok: 3, subj: 5, tok2: 2, subj2: 6, tok3: 4, subj3: 3, curSubj: 6, plain: 5, itemLua: 5, itemGo: 6, itemSubj: 5}
 	}
-	return bounds{tok: 3, subj: 3, tok2: 2, subj2: 5, curSubj: 4, plain: 4}
+	return bounds{tok: 3, subj: 3, tok2: 2, subj2: 5, curSubj: 4, plain: 4, itemLua: 4, itemGo: 5, itemSubj: 4}
 }
 
 // tune: every library call allocates a few small objects on a tiny live heap,
@@ -1223,7 +1235,7 @@ func main() {
 	core.Main(&core.Check{
 		ID:    "C15",
 		Level: "model_checking",
-		Rule: "every pattern of <= N tokens over the 26-token alphabet of DESIGN §4 C15 (malformed and unspecified texts included) x every subject of length <= L over a 3-4 letter alphabet chosen from the pattern's constructs x every init in -len-1..len+2 (and omitted), " +
+		Rule: "every pattern of <= N tokens over the 26-token alphabet of DESIGN §4 C15 and every pattern of <= M items over an 11-item alphabet (quantified single characters, captures, a back reference) (malformed and unspecified texts included) x every subject of length <= L over a 3-4 letter alphabet chosen from the pattern's constructs x every init in -len-1..len+2 (and omitted), " +
 			"through string.find, string.match, string.gmatch (whole iteration sequence) and string.gsub (string/table/function replacement, %0..%2, n limits; result and count), and through pattern.New/MatchFromStart/Match; " +
 			"one evaluation = one pattern with all its subjects (transitions = library calls); non-trivial = the manual determines the outcome; distinct = distinct observation vectors",
 		Assumptions: []string{
@@ -1238,7 +1250,9 @@ func main() {
 		Families: func(tier string) []*core.Family {
 			b := boundsFor(tier)
 			var fams []*core.Family
-			tokFam := func(name string, maxTok, maxLen int, goapi bool) {
+			var tokFamOf func(al []string, name string, maxTok, maxLen int, goapi bool)
+			tokFam := func(name string, maxTok, maxLen int, goapi bool) { tokFamOf(tokens, name, maxTok, maxLen, goapi) }
+			tokFamOf = func(al []string, name string, maxTok, maxLen int, goapi bool) {
 				// On an idle 16 core box every family ends well inside its
 				// budget; the caps bound the worst case of a loaded box to the
 				// tier budget (a capped family is reported exhaustive:false).
@@ -1252,13 +1266,16 @@ func main() {
 						budget = 40
 					}
 				}
+				if len(al) == len(items) {
+					budget *= 3 // the largest families of the tier
+				}
 				if os.Getenv("C15_NOBUDGET") != "" {
 					budget = 0 // complete run on a box that is known to be slow
 				}
 				fams = append(fams, &core.Family{
-					Name: name, Size: nSeq(maxTok), BudgetSeconds: budget,
+					Name: name, Size: nSeqOf(al, maxTok), BudgetSeconds: budget,
 					Run: func(i uint64) core.Outcome {
-						pat := seqPattern(i)
+						pat := seqPatternOf(al, i)
 						a := newAcc()
 						if goapi {
 							checkGoAPI(pat, maxLen, alphabetFor(pat), a)
@@ -1268,7 +1285,7 @@ func main() {
 						return a.outcome(ref.Parse(pat).Verdict() != "unspec")
 					},
 					Show: func(i uint64) string {
-						pat := seqPattern(i)
+						pat := seqPatternOf(al, i)
 						p := ref.Parse(pat)
 						return fmt.Sprintf("pattern %q (%s %s%s) x subjects of length <= %d over %q", pat, p.Verdict(), p.Malformed, p.Unspec, maxLen, alphabetFor(pat))
 					},
@@ -1284,6 +1301,8 @@ func main() {
 			if b.tok3 > 0 {
 				tokFam("goapi-tokens-short-subjects", b.tok3, b.subj3, true)
 			}
+			tokFamOf(items, "lua-items", b.itemLua, b.itemSubj, false)
+			tokFamOf(items, "goapi-items", b.itemGo, b.itemSubj, true)
 			fams = append(fams, &core.Family{
 				Name: "lua-curated", Size: uint64(len(curated)),
 				Run: func(i uint64) core.Outcome {
